@@ -284,13 +284,18 @@ def gen_group(rng: random.Random, tier: str) -> dict:
     for _ in range(rng.choice([4, 10, 25, 50])):
         t += rng.choice([0, 1, 5, 20, 100, int(rebalance_delay * 1000)])
         kind = rng.choices(
-            ["join", "leave", "poll", "commit", "append", "stale_commit", "seek", "co_commit"], weights=[3, 2, 4, 3, 5, 1, 1, 2]
+            ["join", "leave", "poll", "commit", "append", "stale_commit", "seek", "co_commit", "restart"], weights=[3, 2, 4, 3, 5, 1, 1, 2, 2]
         )[0]
         if kind == "append":
             ops.append({"t": t, "op": "append", "key": rng.choice(keys), "val": val})
             val += 1
         elif kind == "poll":
             ops.append({"t": t, "op": "poll", "m": rng.randrange(nmem), "max": rng.choice([1, 2, 5, 100])})
+        elif kind == "restart":
+            # a consumer restart: the old instance's leave is still in progress (sent by another entity) when the new
+            # instance joins again under the SAME name, `gap_ms` later (inside the rebalance delay, at its end, or after it)
+            rd_ms = int(rebalance_delay * 1000)
+            ops.append({"t": t, "op": "restart", "m": rng.randrange(nmem), "gap_ms": rng.choice([0, 0, 1, rd_ms // 2, rd_ms, rd_ms + 1])})
         elif kind == "co_commit":
             # 2-3 worker entities commit for the same member at the same nanosecond (one partition each, or one partition twice)
             ops.append({"t": t, "op": "co_commit", "m": rng.randrange(nmem), "k": rng.choice([2, 2, 3]), "mode": rng.choice(["split", "split", "same"])})
@@ -379,6 +384,13 @@ class _Member(Entity):
                     yield from group.commit(self.name, dict(offs))
                     self.committed.update(offs)
                     hist.append({"op": "commit", "m": self.name, "t0": t0, "t1": self.now.nanoseconds, "offsets": dict(offs)})
+            elif kind == "restart":
+                worker = self.ctx["committers"][0]
+                leave_ev = Event(time=self.now, event_type="do_leave", target=worker, context={"name": self.name})
+                self.ctx["restarts"] = self.ctx.get("restarts", 0) + 1
+                yield op.get("gap_ms", 0) / 1000.0, [leave_ev]
+                assigned = yield from group.join(self.name, self)
+                hist.append({"op": "join", "m": self.name, "t0": t0, "t1": self.now.nanoseconds, "assigned": list(assigned), "restart": True})
             elif kind == "co_commit":
                 # per-partition workers of this member commit at the same instant, each through its own entity
                 todo = {p_: o_ for p_, o_ in self.position.items() if o_ > 0}
@@ -441,6 +453,11 @@ class _Committer(Entity):
         self.ctx = ctx
 
     def handle_event(self, event):
+        if event.event_type == "do_leave":
+            t0 = self.now.nanoseconds
+            yield from self.ctx["group"].leave(event.context["name"])
+            self.ctx["hist"].append({"op": "leave", "m": event.context["name"], "t0": t0, "t1": self.now.nanoseconds, "by_worker": True})
+            return None
         yield from self.ctx["group"].commit(event.context["name"], dict(event.context["offsets"]))
         return None
 
@@ -509,7 +526,7 @@ def run_group(case: dict) -> Result:
     ops = sorted(case["ops"], key=lambda o: o["t"])
     t_last = ops[-1]["t"] if ops else 1
     per_op_ms = int(1000 * (case["rebalance_delay"] + case["poll_latency"])) + 2
-    end_ms = t_last + per_op_ms * (len(ops) + 2) + 100
+    end_ms = t_last + per_op_ms * (len(ops) + sum(1 for o in ops if o["op"] == "restart") + 2) + 100
     sim = Simulation(entities=[log, group, prod, *members, *ctx["committers"]], end_time=Instant(end_ms * MS))
     for op in ops:
         target = prod if op["op"] == "append" else members[op["m"]]
@@ -637,7 +654,9 @@ def run_group(case: dict) -> Result:
                         shape,
                         f"{m} partition {pid}: committed {want}, poll at {hrec['t1']}ns returned offsets {offs[:10]}",
                     )
-    unfinished = sum(1 for o in ops if o["op"] in ("join", "leave", "poll")) - sum(1 for x in ctx["hist"] if x["op"] in ("join", "leave", "poll"))
+    unfinished = sum(2 if o["op"] == "restart" else 1 for o in ops if o["op"] in ("join", "leave", "poll", "restart")) - sum(
+        1 for x in ctx["hist"] if x["op"] in ("join", "leave", "poll")
+    )
     if unfinished:
         res.add("group-operation-never-completed", comp, shape, f"{unfinished} join/leave/poll calls did not return before end_time")
 
